@@ -19,12 +19,16 @@ from harness.framework import Result, pmap
 from harness.proto import Atom, B
 
 PROP = 'C02'
-ENCODINGS = ['utf-8', 'ascii', 'latin-1', 'utf-16']
+from harness import extract_xml as _extract_xml
+ALL_ENCODINGS = list(_extract_xml.ENCODINGS)      # the translator's table: one source for oracle, correspondence, theorems
+ENCODINGS = ALL_ENCODINGS[:4]                     # utf-8, ascii, latin-1, utf-16: every case is rendered in these
+EXTRA_ENCODINGS = ALL_ENCODINGS[4:]               # one of these per case, in rotation (utf-32 and single-byte code pages)
 TRUSTED = [
     'modelled, not verified: genshi/output.py EmptyTagFilter, NamespaceFlattener, XMLSerializer, encode(); '
     'genshi/input.py XMLParser callbacks and _coalesce (hand-written Lean model tied by correspondence on generated streams)',
     'not modelled, only exercised: expat/pyexpat (both as genshi\'s tokenizer and as the oracle\'s independent reader), '
-    'the codecs (utf-8, ascii, latin-1, utf-16) — the model sees an encoding as the predicate "representable"',
+    'the codecs (utf-8/16/32, ascii, latin-1, iso-8859-2/-7/-15, cp1251, cp1252, cp437, koi8-r, mac-roman) — the model sees an encoding as the '
+    'predicate "representable", extracted by running every scalar value through the codec\'s encoder',
     'the spec-side reader Genshi.Xml.Reader is validated against expat on serializer output by correspondence, not proved against the XML recommendation',
     'strings with lone surrogates are outside Lean Char (and outside XML)',
 ]
@@ -159,7 +163,11 @@ def check_stream(case, stream, first, fails, res=None):
         bad('serialising twice is idempotent', text[:400], text2[:400])
         return
     markup = _markup_chars(first)
-    for enc in ENCODINGS:
+    k = len(text)
+    n = len(EXTRA_ENCODINGS)
+    for enc in ENCODINGS + [EXTRA_ENCODINGS[k % n]]:
+        if res is not None:
+            res.count('oracle-enc:' + enc)
         if not _encodable(markup, enc):
             if res is not None:
                 res.count('enc-skipped-unencodable-markup:' + enc)
@@ -416,8 +424,8 @@ class Corr(object):
             real = proto.N
         self.add('reparse', case, proto.line(C02, Atom('reparse'), text), real)
 
-    def add_enc(self, text, enc, case):
-        self.add('encode', case, proto.line(C02, Atom('enc'), enc_ranges(enc), text), real_enc(text, enc))
+    def add_enc(self, text, enc, case, tag=''):
+        self.add('encode' + tag, case, proto.line(C02, Atom('enc'), enc_ranges(enc), text), real_enc(text, enc))
 
     def finish(self):
         answers = proto.run_lines(self.lines)
@@ -687,8 +695,24 @@ def shard(arg):
             texts.append(out)
             corr.add_text(out, case)
             corr.add_reparse(out, {'kind': 'read', 'text': out})
-            enc = ENCODINGS[(i // 4) % 4]
+            enc = ALL_ENCODINGS[(i // 4) % len(ALL_ENCODINGS)]
             corr.add_enc(out, enc, {'kind': 'enc', 'text': out, 'enc': enc})
+    # encode() against the model on texts drawn from the borders of each codec's repertoire (first / last
+    # code point of every extracted range and their neighbours), so that a table that is off by one shows
+    for enc in ALL_ENCODINGS:
+        pool = set()
+        for lo, hi in enc_ranges(enc):
+            for cp in (lo - 1, lo, hi, hi + 1):
+                if 0x20 <= cp < 0x110000 and not 0xd800 <= cp < 0xe000:
+                    pool.add(chr(cp))
+        pool = sorted(pool) + list('<&>"a')
+        for _ in range(2):
+            t = ''.join(rng.choice(pool) for _ in range(rng.randrange(4, 24)))
+            real = real_enc(t, enc)
+            raw = any(ord(c) > 127 for c in real)
+            res.count('enc-border:%s' % ('refs+raw' if '&#' in real and raw else 'refs' if '&#' in real else
+                                          'raw' if raw else 'ascii'))
+            corr.add_enc(t, enc, {'kind': 'enc', 'text': t, 'enc': enc}, tag='-border')
     # source documents without HTML entities through the reader (single quotes, hex references, spacing)
     for i in range(ndocs // 4):
         doc = gen_xml.gen_doc(rng, html_entities=False)
